@@ -839,6 +839,11 @@ func (r *envelopingReader) Read(data []byte) (n int, err error) {
 	if len(data) > offset {
 		n, err = r.current.Read(data[offset:])
 	}
+	if offset+n > 0 && errors.Is(err, io.EOF) {
+		// Only the current message is exhausted; more may follow. EOF is
+		// reported once there is nothing left to deliver.
+		err = nil
+	}
 	return offset + n, err
 }
 
@@ -962,6 +967,10 @@ func (r *transformingReader) Read(data []byte) (n int, err error) {
 			n, err = r.buffer.Read(data[offset:])
 		}
 		if offset+n > 0 {
+			if errors.Is(err, io.EOF) {
+				// Only the current message is exhausted; more may follow.
+				err = nil
+			}
 			return offset + n, err
 		}
 
